@@ -14,7 +14,7 @@ after1 <hex>
 after2 <hex>
 run
 ```
-A line `fixes <keepUnrun> <oneCorrection> <keepSuffixPreamble> <quoteReset> <keepCstFiltered>` (0/1 each) selects which proposed
+A line `fixes <keepUnrun> <oneCorrection> <keepSuffixPreamble> <quoteReset> <keepCstFiltered> <sameQuote>` (0/1 each) selects which proposed
 repairs the model follows (default: none — the unchanged code).
 Answer: `<id> parse0=… parse1=… upd1=… upd2=… judge=ok|FAIL:<clauses> n0=… n1=… nt=…`.
 -/
@@ -122,10 +122,11 @@ def runCase (s : St) : String :=
   let r1 := if st1 == s.res1 then "ok" else s!"DIFF:model={st1},real={s.res1}"
   let r2 := if st2 == s.res2 then "ok" else s!"DIFF:model={st2},real={s.res2}"
   let sexps := s.acts.foldr (fun (_, _, a) acc => if a.hasError then acc else a.sexpFields :: a.sexpPlain :: acc) []
+  let allSexps := s.acts.foldr (fun (_, _, a) acc => a.sexpFields :: a.sexpPlain :: acc) []
   let fails := judge { fx := s.fx, flt := flt, os := s.os, orig := s.orig, ent0 := e0, wrote1 := s.wrote1, after1 := s.after1,
-                       ent1 := e1, after2 := s.after2, orc := orc, sexps := sexps }
+                       ent1 := e1, after2 := s.after2, orc := orc, sexps := sexps, allSexps := allSexps }
   let j := if fails.isEmpty then "ok" else "FAIL:" ++ ",".intercalate fails
-  let jin : JudgeIn := { fx := s.fx, flt := flt, os := s.os, orig := s.orig, ent0 := e0, wrote1 := s.wrote1, after1 := s.after1, ent1 := e1, after2 := s.after2, orc := orc, sexps := sexps }
+  let jin : JudgeIn := { fx := s.fx, flt := flt, os := s.os, orig := s.orig, ent0 := e0, wrote1 := s.wrote1, after1 := s.after1, ent1 := e1, after2 := s.after2, orc := orc, sexps := sexps, allSexps := allSexps }
   let canonF := canonB jin
   let simplesF := simplesB jin
   -- near-delimiter lines: a body line of an input or expectation of the ORIGINAL file that starts with a run of
@@ -172,9 +173,8 @@ def runCase (s : St) : String :=
 
 def step (s : St) (line : String) : IO St := do
   match line.splitOn " " with
-  | ["fixes", a, b, c, d, e] =>
-    return { s with fx := { keepUnrun := a == "1", oneCorrection := b == "1", keepSuffixPreamble := c == "1", quoteReset := d == "1",
-                            keepCstFiltered := e == "1" } }
+  | ["fixes", a, b, c, d, e, f] =>
+    return { s with fx := { keepUnrun := a == "1", oneCorrection := b == "1", keepSuffixPreamble := c == "1", quoteReset := d == "1", keepCstFiltered := e == "1", sameQuote := f == "1" } }
   | ["case", id] => return { fx := s.fx, id := id }
   | ["os", h] => return { s with os := unhexStr h }
   | ["orig", h] => return { s with orig := unhexStr h }
